@@ -130,7 +130,7 @@ PROPS = {
                  dict(mode="cfg", quick=4, thorough=60, workers=8, driver_workers=1, timeout=3000),
                  dict(mode="proj", quick=112, thorough=1100, workers=14, driver_workers=2, timeout=3000, env={"VH_ODD_FIELDS": "1"}),
                  dict(mode="proj", quick=42, thorough=400, workers=14, driver_workers=2, timeout=3000, env={"VH_TYPES": "1", "VH_TIME_ALIAS": "1"})],
-        rule=IR_RULE + "; (fourth stream: type-graph projects - enums over every scalar base with negative, fractional and large members); every emitted document (3.0 and 3.1) is read back into the abstract Doc and the decidable well-formedness checker (proved sound) runs on it: $ref closure, path-template/parameter bijection with required path parameters, parameter names unique per location, responses described, enum members typed, info/servers/securitySchemes = configuration; non-trivial = at least one document emitted; distinct = distinct document",
+        rule=IR_RULE + "; (fourth stream: type-graph projects - enums over every scalar base with negative, fractional and large members); since round 11 the checker also demands that every `type` of a schema is a JSON Schema type (clause schema-types), and the type-graph stream declares aliases over time.Time; every emitted document (3.0 and 3.1) is read back into the abstract Doc and the decidable well-formedness checker (proved sound) runs on it: $ref closure, path-template/parameter bijection with required path parameters, parameter names unique per location, responses described, enum members typed, info/servers/securitySchemes = configuration; non-trivial = at least one document emitted; distinct = distinct document",
         trusted_base=COMMON_TB + IR_TB + ["docOfJson (driver): reading the real JSON into Gleece.Doc.Doc", "kin-openapi openapi3.T.Validate and libopenapi-validator are trusted to reject what they reject"],
         partial=["finding C08-F1 (= C11-F2): 3.0 lists the members of a non-string enum component as JSON strings"],
         assumptions=[],
@@ -140,7 +140,7 @@ PROPS = {
                  dict(mode="proj", quick=42, thorough=800, workers=14, driver_workers=2, timeout=3000, env={"VH_TYPES": "1", "VH_ARRAYS": "1", "VH_OP_TIMEOUT": "120"}),
                  dict(mode="proj", quick=56, thorough=1100, workers=14, driver_workers=2, timeout=3000, env={"VH_GENERIC": "1", "VH_CRASHY": "1", "VH_OP_TIMEOUT": "120"}),
                  dict(mode="cli", quick=50, thorough=600, workers=8, driver_workers=1, timeout=3000, env={"VH_GENERIC": "1"})],
-        rule=IR_RULE + " with arbitrary / malformed validator tags on a third of the rules (unparsable, negative, empty and overflowing numbers, empty oneof/enum, unknown rules, stray separators, unicode) and struct fields referring to structs declared later (unresolved $ref while emitting); a recovered panic, a dead worker or a timeout is a failure; the `cli` stream runs the REAL program (built from the working tree) in child processes - bare, `generate spec`, `generate routes`, `generate spec-and-routes` - on well-formed, perturbed and config-less projects and evaluates the decidable contract `Gleece.Cli.Contract` (bounded time, no panic text, exit 0 with the command's artifacts or non-zero with a message) and the agreement of the exit status with the in-process verdict of the same command; non-trivial = every case (each exercises both emitters); distinct = distinct document",
+        rule=IR_RULE + " with arbitrary / malformed validator tags on a third of the rules (unparsable, negative, empty and overflowing numbers, empty oneof/enum, unknown rules, stray separators, unicode) and struct fields referring to structs declared later (unresolved $ref while emitting); a recovered panic, a dead worker or a timeout is a failure; the `cli` stream runs the REAL program (built from the working tree) in child processes - bare, `generate spec`, `generate routes`, `generate spec-and-routes` - on well-formed, perturbed and config-less projects and evaluates the decidable contract `Gleece.Cli.Contract` (bounded time, no panic text, exit 0 with the command's artifacts or non-zero with a message) and the agreement of the exit status with the in-process verdict of the same command; non-trivial = every case (each exercises both emitters); distinct = distinct document; every operation of the project streams runs under a watchdog (VH_OP_TIMEOUT=120 s): an analysis that does not return ends the worker with `HANG: operation N`, which is recorded as an operation the implementation did not answer; the type-graph stream writes fixed-size arrays (`[2]T`, `[][2]T`, `*[3]T`)",
         trusted_base=COMMON_TB + IR_TB + ["translator harness/cmd/vh/extract_rules.go (go/ast over both converters)"],
         partial=["crash-freedom of go/packages, raymond, kin-openapi, libopenapi and the AST visitors on arbitrary Go source cannot be proved here; it is explored (ir stream with bad tags; CLI stream)"],
         assumptions=[],
@@ -176,7 +176,7 @@ PROPS = {
     "C19": dict(
         streams=[dict(mode="proj", quick=42, thorough=600, workers=14, driver_workers=2, timeout=3000, env={"VH_REPEAT": "1", "VH_VALID_ONLY": "1"}),
                  dict(mode="proj", quick=28, thorough=400, workers=14, driver_workers=2, timeout=3000, env={"VH_REPEAT": "1", "VH_TYPES": "1"})],
-        rule="well-formed generated projects; on ONE GleecePipeline the analysis (GenerateGraph, Validate, GenerateIntermediate) is repeated 1-3 more times: canonical flattened metadata (controllers, routes, models, import serials; set-valued import lists sorted) after every round, the same from a brand-new pipeline, and the number of graph nodes after every round; non-trivial = accepted project; distinct = distinct project",
+        rule="well-formed generated projects; on ONE GleecePipeline the analysis (GenerateGraph, Validate, GenerateIntermediate) is repeated 1-3 more times: canonical flattened metadata (controllers, routes, models, import serials; set-valued import lists sorted) after every round, the same from a brand-new pipeline, and the number of graph nodes after every round; non-trivial = accepted project; distinct = distinct project; cache transparency of the file versions: every struct / enum / alias / controller node of the graph must be keyed under the file that declares it (a cached file version that is not the file's own shows as `misfiled`)",
         trusted_base=COMMON_TB + ["canonIR (harness): sorting of set-valued import lists before comparison"],
         partial=["the metadata cache (core/arbitrators/caching) is exercised, not modelled"],
         assumptions=[],
